@@ -173,6 +173,25 @@ def const_int(e):
     return None
 
 
+def bool_under(e, cond, value):
+    """Truth value of the bool expression `e` given that `cond` evaluates to `value` (True / False / None = unknown).
+    Handles constants, `!x`, and expressions structurally identical to the assumed condition (same call site for calls)."""
+    x = strip(e)
+    c = strip(cond)
+    if x[0] == "const" and "bool" in x[1]:
+        return bool(x[1]["bool"])
+    if x[0] == "un" and x[1] == "Not":
+        v = bool_under(x[2], cond, value)
+        return None if v is None else (not v)
+    if x[0] == "call" and c[0] == "call":
+        if same_call(x[1], c[1]) or (x[1].fn == c[1].fn and x[1].fn_sp == c[1].fn_sp):
+            return value
+        return None
+    if fmt(x) == fmt(c) and x[0] != "call":
+        return value
+    return None
+
+
 def callee_is(e, *names):
     return e[0] == "call" and (e[1].fn in names or (e[1].res in names if e[1].res else False))
 
@@ -388,8 +407,9 @@ def root_local(body, operand, max_hops=12):
             if "ref" in rv:
                 l = rv["ref"]["l"]
                 continue
-            if "use" in rv and ("copy" in rv["use"] or "move" in rv["use"]) and body.lname(l) is None:
+            if "use" in rv and ("copy" in rv["use"] or "move" in rv["use"]) and (body.lname(l) is None or body.local_tystr(l).startswith("&")):
                 # only unnamed temporaries are looked through: a named user variable owns its storage
+                # (unless it is itself a reference, e.g. the `&mut Frame` parameter of a spliced helper)
                 pl = rv["use"].get("copy") or rv["use"].get("move")
                 if not [x for x in pl["p"] if x != "*"]:
                     l = pl["l"]
@@ -452,6 +472,36 @@ def vec_segments(body, local):
         c = by_bb[bb]
         segs.append(("bytes" if VEC_APPEND[c.fn] == "extend" else "push", c.arg(1), c))
     return segs
+
+
+def subst_args(e, arg_exprs):
+    """Replace the callee's parameter nodes ('arg', i, name) in e by the caller's argument expressions."""
+    if isinstance(e, tuple):
+        if len(e) >= 2 and e[0] == "arg" and isinstance(e[1], int) and 1 <= e[1] <= len(arg_exprs):
+            return arg_exprs[e[1] - 1]
+        return tuple(subst_args(x, arg_exprs) for x in e)
+    if isinstance(e, list):
+        return [subst_args(x, arg_exprs) for x in e]
+    return e
+
+
+def returned_vec_segments(facts, body, depth=0):
+    """vec_segments of the byte vector a key constructor returns; a constructor that merely delegates to another crate-local
+    constructor (`fn key_from_frame(f) { key(f.context_id, f.id) }`) is resolved through the callee with the arguments substituted."""
+    rets = body.return_defs()
+    if len(rets) != 1:
+        raise FactError("%s has %d return definitions" % (body.def_, len(rets)))
+    (bb, e, raw) = rets[0]
+    x = strip(e)
+    if x[0] == "call" and x[1].local and depth < 3:
+        gb = facts.body(x[1].fn)
+        if gb is not None and not gb.is_coroutine:
+            inner = returned_vec_segments(facts, gb, depth + 1)
+            return [(k, subst_args(ex, x[2]), site) for (k, ex, site) in inner]
+    l = root_local(body, raw["use"]) if isinstance(raw, dict) and "use" in raw else None
+    if l is None:
+        raise FactError("%s does not return a local Vec" % body.def_)
+    return vec_segments(body, l)
 
 
 def flatten_phi(e, limit=16):
